@@ -10,6 +10,9 @@ Implementation side, two levels:
   A-seq / B-seq / C-seq: several requests on ONE connection (one shared channel object for A; HTTP/1.1 keep-alive,
      HTTP/1.0 + Connection: keep-alive, one at a time and pipelined for B; the real inner handlers -- probe RPC namespace,
      static file, log tails -- for C): every request is judged on its own header, whatever the connection carried before.
+  F. configuration FILE TEXT -> real ServerOptions (os.environ entries set/restored around the parse) -> options.server_configs -> real
+     make_http_servers -> requests: credentials written literally or as %(ENV_X)s, X in the process environment, in [supervisord]
+     environment=, or in both (the file's value is the credential).
 Correspondence against Model/Auth.lean; base64 / UTF-8 / SHA-1 results are passed to the model as
 tables (they are parameters of the model).  Monitors: inner handler invoked <=> credentials right.
 """
@@ -30,6 +33,10 @@ ASSUMPTIONS = [
     "one configured user per server section, as make_http_servers builds it",
     "F18 (fixed, `if username is not None:`): a section with `username=` (empty value) and a password is accepted by _parse_username_and_password and is now authenticated like any other (credentials ':<password>'; theorem f18_empty_username_is_authenticated; monitor kind empty-username-disables-auth reports the defect if it returns). A section with neither option is unauthenticated by design (no_credentials_configured_is_open). An empty PASSWORD with a non-empty username is authenticated normally (credentials 'user:').",
     "a configured username containing ':' can never authenticate (the decoded cookie is split at the first colon): fails closed",
+    "configuration files (level F): `%(ENV_X)s` in a server section means the last X= of `[supervisord] environment=` if there is one, otherwise the value of X in the "
+    "environment supervisord was started from (read_config: 'extend expansions for global from [supervisord] environment definition', as the suite checks for "
+    "[program:x] sections); a file using a name defined nowhere is rejected "
+    "(supervisord does not start: nothing is served); only the first read of a file by a fresh ServerOptions is considered (no reload)",
     "connection reuse: handle_unauthorized calls request.channel.set_terminator(None), so after a 401 the channel dispatches nothing more "
     "on that connection (theorem after_401_nothing_runs; the response says `Connection: close` for HTTP/1.1, but `Connection: Keep-Alive` "
     "for an HTTP/1.0 keep-alive request, and the socket stays open). 'Requests with the right credentials are served' is therefore demanded of "
@@ -48,11 +55,23 @@ RULE = ("level A cases = (stored user, stored password plain|{SHA}) x Authorizat
         "connection reuse = sequences of 2-4 requests on one channel: every ordered pair of (right, absent, wrong user, undecodable, no colon, "
         "other scheme, extended password) x (HTTP/1.1, HTTP/1.0 keep-alive) with the second request on every handler, every header class after "
         "an authenticated request, random longer histories with mixed versions, delivered one at a time and pipelined, through the recorders (B-seq) "
-        "and through the real handlers with a probe RPC namespace, a static file and followed logs (C-seq). Non-trivial = an Authorization line is present; distinct by (config, request)")
+        "and through the real handlers with a probe RPC namespace, a static file and followed logs (C-seq); "
+        "level F = configuration FILES: 1-3 [unix_http_server] / [inet_http_server] sections whose username, password (plain, {SHA} entry, '{SHA}' + digest) and "
+        "socket path / port are written literally, as %(ENV_X)s or as a mixture, X defined only in the process environment, only in [supervisord] environment=, in both "
+        "with different values (the file's must win), in both with the same value, by an environment= value that itself refers to the process environment, repeated "
+        "in environment=, or nowhere (file rejected); small-scope exhaustive over (kind x way of defining X x slot) plus random files and a corpus "
+        "(corpus/C17/file_cases.json, first entry = the seeded C17-7 demo); each file is written to disk, read by the real ServerOptions with the os.environ entries "
+        "set around its construction, its server_configs given to the real make_http_servers, and every server is asked with the credentials the file configures "
+        "(computed by the generator), the ones the same text would mean in the inherited environment alone, every other section's, the written text itself, "
+        "the stored string, prefixes/extensions and malformed headers -- through recorders (correspondence with the model's servefile) and through the real handlers. "
+        "Non-trivial = an Authorization line is present; distinct by (config, request)")
 TECHNIQUE = ("Lean 4 theorems over a model whose guards, status codes, wrapper table and dispatch order are regenerated "
              "from auth_handler.py / http.py / http_server.py; differential correspondence against the real handler "
              "objects and the real channel dispatch")
-LEVEL_TEXT = ("every_request_decided_alone / no_request_served_on_earlier_credentials: on a connection carrying any sequence of requests the "
+LEVEL_TEXT = ("file_server_serves_exactly_the_configured_credentials: for every accepted configuration file, process environment and [supervisord] environment=, a server section whose "
+              "username/password texts stand for (user, stored) as the FILE defines %(ENV_X)s serves a request iff it carries exactly those (over the regenerated facts that the server "
+              "sections are parsed after the environment merge and from the very dictionary the merge fills: server_sections_parsed_after_environment_merge); "
+              "every_request_decided_alone / no_request_served_on_earlier_credentials: on a connection carrying any sequence of requests the "
               "k-th answer depends on the k-th header only (from decision_keeps_no_state, decided over the regenerated lists of persistent writes, "
               "channel references and dynamic attribute access of the decision path); served_iff_authorized is proved for every header list, every parameter functions (base64, UTF-8, SHA-1), "
               "every path-matching function and every non-empty configured username; all_handlers_wrapped is decided "
@@ -1201,6 +1220,548 @@ def run_level_b_multi(ctx):
     ctx.correspond('auth-dispatch-multi', cases, impls)
 
 
+# ---------------------------------------------------------------------------------------------
+# level F: from the configuration FILE TEXT to the requests.  A file case is
+#   {'vars': {NAME: {'os': value|None, 'sup': written|None}},       the process environment / [supervisord] environment=
+#    'sup_order': [NAME, ...],                                      order (and repetitions) of the environment= entries
+#    'sup_dups': {NAME: written},                                   an earlier entry for the same name (a later one replaces it)
+#    'sections': [{'kind': 'unix'|'inet', 'username': written|None, 'password': written|None, 'addr': written,
+#                  'plain': password a client must send for the CONFIGURED entry, 'inherited_plain': ... for the inherited one}]}
+# written = [['l', literal text] | ['e', NAME]  (= %(ENV_NAME)s) | ['h'] (= %(here)s, addresses only)].
+# Literal texts are templates: '{scratch}' and '{port0}'.. are replaced when the case is run (replayable anywhere).
+# The file is written to disk and read by the real ServerOptions (os.environ entries set before its construction and
+# restored afterwards); options.server_configs go to the real make_http_servers; requests go through the real channel.
+FILE_KINDS_DOC = ("configured-credentials-refused:file, inherited-environment-credentials-served:file, other-sections-credentials-served:file, "
+                  "other-credentials-served:file, handler-bytes-returned-without-credentials:file, rpc-method-ran-without-credentials:file, "
+                  "refusal-without-401:file, credentials-altered-by-parser:file, server-address-not-as-configured:file, "
+                  "handler-not-wrapped:file, server-section-lost:file, configured-file-rejected:file")
+
+
+def w_text(w):
+    """the option value as it is written in the file"""
+    out = []
+    for piece in w:
+        if piece[0] == 'l':
+            out.append(piece[1].replace('%', '%%'))
+        elif piece[0] == 'e':
+            out.append('%%(ENV_%s)s' % piece[1])
+        else:
+            out.append('%(here)s')
+    return ''.join(out)
+
+
+def w_enc(w):
+    if w is None:
+        return 'N'
+    if not w:
+        return 'E'
+    return '+'.join(('L' if k == 'l' else 'V') + t.encode('utf-8').hex() for k, t in w)
+
+
+def w_value(w, look, here=None):
+    """what the written text stands for when %(ENV_X)s is `look(X)`; None = some name has no value"""
+    out = []
+    for piece in w:
+        if piece[0] == 'l':
+            out.append(piece[1])
+        elif piece[0] == 'h':
+            out.append(here)
+        else:
+            v = look(piece[1])
+            if v is None:
+                return None
+            out.append(v)
+    return ''.join(out)
+
+
+def w_names(w):
+    return [piece[1] for piece in (w or []) if piece[0] == 'e']
+
+
+def fc_resolve(fc, scratch, ports):
+    """fill the '{scratch}' / '{portK}' templates of the literal texts"""
+    def lit(t):
+        t = t.replace('{scratch}', scratch)
+        for k, port in enumerate(ports):
+            t = t.replace('{port%d}' % k, str(port))
+        return t
+    def wr(w):
+        return None if w is None else [[p[0], lit(p[1])] if p[0] == 'l' else list(p) for p in w]
+    return {'vars': dict((n, {'os': None if v['os'] is None else lit(v['os']), 'sup': wr(v['sup'])}) for n, v in fc['vars'].items()),
+            'sup_order': list(fc.get('sup_order') or [n for n, v in fc['vars'].items() if v['sup'] is not None]),
+            'sup_dups': dict((n, wr(w)) for n, w in (fc.get('sup_dups') or {}).items()),
+            'sections': [dict(sec, username=wr(sec['username']), password=wr(sec['password']), addr=wr(sec['addr'])) for sec in fc['sections']]}
+
+
+def fc_file_text(fc, names):
+    sup = []
+    for n in fc['sup_order']:
+        if n in fc['sup_dups'] and not any(k == n for k, _ in sup):
+            sup.append((n, fc['sup_dups'][n]))
+        sup.append((n, fc['vars'][n]['sup']))
+    text = '[supervisord]\n'
+    if sup:
+        text += 'environment=' + ','.join('%s="%s"' % (n, w_text(w)) for n, w in sup) + '\n'
+    for sec, name in zip(fc['sections'], names):
+        text += '\n[%s]\n' % name
+        text += ('port=%s\n' if sec['kind'] == 'inet' else 'file=%s\n') % w_text(sec['addr'])
+        if sec['username'] is not None:
+            text += 'username=%s\n' % w_text(sec['username'])
+        if sec['password'] is not None:
+            text += 'password=%s\n' % w_text(sec['password'])
+    return text, sup
+
+
+def fc_section_names(fc):
+    seen, names = {}, []
+    for sec in fc['sections']:
+        k = seen.get(sec['kind'], 0); seen[sec['kind']] = k + 1
+        names.append('%s_http_server' % sec['kind'] + ('' if k == 0 else ':s%d' % k))
+    return names
+
+
+class _Quiet:
+    def __enter__(self):
+        import io, sys
+        self.saved = sys.stderr
+        sys.stderr = io.StringIO()
+    def __exit__(self, *a):
+        import sys
+        sys.stderr = self.saved
+
+
+def parse_file(path, environ):
+    """the real ServerOptions on the file, constructed and realized with `environ` laid over os.environ (restored afterwards).
+    -> (options | None when the file is rejected, message, {name: value the process environment had})"""
+    from supervisor.options import ServerOptions
+    from supervisor.tests.base import DummyLogger
+    import io
+    saved = dict((k, os.environ.get(k)) for k in environ)
+    try:
+        for k, v in environ.items():
+            if v is None:
+                os.environ.pop(k, None)
+            else:
+                os.environ[k] = v
+        o = ServerOptions()
+        o.stderr = io.StringIO()
+        o.stdout = io.StringIO()
+        o.configfile = path
+        try:
+            o.realize(args=[])
+        except SystemExit:
+            return None, o.stderr.getvalue()
+        o.logger = DummyLogger()
+        return o, ''
+    finally:
+        for k, v in saved.items():
+            if v is None:
+                os.environ.pop(k, None)
+            else:
+                os.environ[k] = v
+
+
+def file_spec(fc, here):
+    """What the FILE configures, computed without the implementation: `%(ENV_X)s` in a server section is the last X= of the
+    [supervisord] environment= if there is one (its own %(ENV_Y)s taken from the process environment), otherwise the value
+    inherited from the process environment.  -> (lookup for the file, lookup for the inherited environment alone, file acceptable?)"""
+    osenv = dict((n, v['os']) for n, v in fc['vars'].items() if v['os'] is not None)
+    supenv, ok = {}, True
+    for n in fc['sup_order']:
+        val = w_value(fc['vars'][n]['sup'], osenv.get)
+        if val is None:
+            ok = False
+        supenv[n] = val
+    for n, w in fc['sup_dups'].items():
+        if w_value(w, osenv.get) is None:
+            ok = False
+    look = lambda n: supenv[n] if n in supenv else osenv.get(n)
+    return look, osenv.get, ok
+
+
+def file_case(ctx, fc0, cases, impls, real=False, attempt=0):
+    """one configuration file -> servers -> requests.  real=False: inner handlers replaced by recorders (correspondence
+    with the model's `servefile`); real=True: the real handlers with the probe RPC namespace (side effects observed)"""
+    from supervisor.tests.base import DummyOptions, DummySupervisor, DummyRPCInterfaceFactory, DummyPConfig, PopulatedDummySupervisor
+    from supervisor.http import make_http_servers, supervisor_auth_handler
+    import supervisor
+    import supervisor.medusa.asyncore_25 as asyncore
+    rng = ctx.rng
+    n = len(os.listdir(ctx.scratch))
+    here = os.path.join(ctx.scratch, 'f%d' % n)
+    os.makedirs(os.path.join(here, 'inh'))
+    ports = []
+    for _ in range(4):
+        probe = socket.socket(); probe.bind(('127.0.0.1', 0)); ports.append(probe.getsockname()[1]); probe.close()
+    fc = fc_resolve(fc0, here, ports)
+    names = fc_section_names(fc)
+    text, sup = fc_file_text(fc, names)
+    path = os.path.join(here, 'supervisord.conf')
+    with open(path, 'w', encoding='utf-8') as f:
+        f.write(text)
+    inp = {'level': 'F', 'file_case': fc0, 'real': real, 'config': text,
+           'environ': dict((nm, v['os']) for nm, v in fc['vars'].items())}
+    look, look_inh, sup_ok = file_spec(fc, here)
+    # ---- what the file promises, per section
+    want = []
+    acceptable = sup_ok
+    for sec in fc['sections']:
+        if (sec['username'] is None) != (sec['password'] is None):
+            acceptable = False
+        user = None if sec['username'] is None else w_value(sec['username'], look)
+        stored = None if sec['password'] is None else w_value(sec['password'], look)
+        addr = w_value(sec['addr'], look, here)
+        if addr is None or (sec['username'] is not None and user is None) or (sec['password'] is not None and stored is None):
+            acceptable = False
+        want.append((user, stored, addr))
+    options, msg = parse_file(path, dict((nm, v['os']) for nm, v in fc['vars'].items()))
+    ctx.count('F:file:%s' % ('accepted' if options is not None else 'rejected'))
+    referenced = sorted(set(nm for sec in fc['sections'] for w in (sec['username'], sec['password']) for nm in w_names(w))
+                        | set(nm for _, w in sup for nm in w_names(w)))
+    os_field = ','.join('%s:%s' % (hs(nm), hs(fc['vars'][nm]['os'])) for nm in referenced
+                        if nm in fc['vars'] and fc['vars'][nm]['os'] is not None) or '-'
+    sup_field = ','.join('%s:%s' % (hs(nm), w_enc(w)) for nm, w in sup) or '-'
+    def op(i, order, m, header):
+        secs = ';'.join('%s/%s' % (w_enc(fc['sections'][j]['username']), w_enc(fc['sections'][j]['password'])) for j in order)
+        return 'servefile i=%d os=%s sup=%s secs=%s m=%s h=%s t=%s' % (i, os_field, sup_field, secs, m, hdr_field(header), tables_for(header))
+    ctx.case_done(('F', text, tuple(sorted(inp['environ'].items(), key=repr)), real), True)
+    if options is None:
+        if acceptable:
+            ctx.violation('configured-file-rejected:file',
+                          'every name the file uses is defined by the file or the environment, yet the file is rejected (%s): nothing is served to the configured credentials'
+                          % msg.strip().split('\n')[0][:200], inp)
+        elif not real:
+            cases.append(('case auth user=N pass=N', [op(0, range(len(fc['sections'])), '-', [])]))
+            impls.append(['rejected'])
+        return
+    if not acceptable:
+        ctx.count('F:unacceptable-file-accepted')
+    configs = list(options.server_configs)
+    by_section = dict((c['section'], k) for k, c in enumerate(configs))
+    if sorted(by_section) != sorted(names):
+        ctx.violation('server-section-lost:file', 'sections in the file %r, server configurations %r' % (names, [c['section'] for c in configs]), inp)
+        return
+    order = [names.index(c['section']) for c in configs]            # model: sections in options.server_configs order
+    for j, (sec, name) in enumerate(zip(fc['sections'], names)):
+        c = configs[by_section[name]]
+        user, stored, addr = want[j]
+        ctx.count('F:section:%s:%s' % (sec['kind'], 'open' if sec['username'] is None else 'auth'))
+        if acceptable and (c['username'], c['password']) != (user, stored):
+            ctx.violation('credentials-altered-by-parser:file', 'section [%s]: the file configures (%r, %r), make_http_servers receives (%r, %r)'
+                          % (name, user, stored, c['username'], c['password']), inp)
+        got = c['file'] if sec['kind'] == 'unix' else '%s:%s' % (c['host'], c['port'])
+        if acceptable and got != addr:
+            ctx.violation('server-address-not-as-configured:file', 'section [%s]: the file configures %r, the server is made for %r' % (name, addr, got), inp)
+    # ---- the servers
+    if real:
+        dopts = DummyOptions()
+        logpath = os.path.join(here, 'proc.log')
+        with open(logpath, 'wb') as f:
+            f.write(LOG_SECRET)
+        dopts.logfile = logpath
+        sup_obj = PopulatedDummySupervisor(dopts, 'grp', DummyPConfig(dopts, 'proc', '/bin/true', stdout_logfile=logpath))
+        options.rpcinterface_factories = [('probe', _probe_factory, {})]
+    else:
+        sup_obj = DummySupervisor()
+        options.rpcinterface_factories = [('dummy', DummyRPCInterfaceFactory, {})]
+    try:
+        with _Quiet():
+            servers = make_http_servers(options, sup_obj)
+    except OSError as ex:
+        import errno
+        asyncore.socket_map.clear()
+        if ex.errno != errno.EADDRINUSE:
+            raise
+        if attempt < 3:
+            return file_case(ctx, fc0, cases, impls, real, attempt + 1)      # a probed port was taken meanwhile: other ports
+        from framework import Infra
+        raise Infra('could not open the servers of a generated file: %r' % ex)
+    css = open(os.path.join(os.path.dirname(supervisor.__file__), 'ui', 'stylesheets', 'supervisor.css'), 'rb').read()
+    try:
+        ops, lines = [], []
+        for i, (cfg, hsrv) in enumerate(servers):
+            j = names.index(cfg['section'])
+            sec = fc['sections'][j]
+            user, stored, addr = want[j]
+            log, wrapped = [], {}
+            for k, h in enumerate(hsrv.handlers):
+                w = isinstance(h, supervisor_auth_handler)
+                inner = h.handler if w else h
+                name = VAR_OF_CLASS.get(inner.__class__.__name__, inner.__class__.__name__)
+                wrapped[name] = w
+                if not real:
+                    if w:
+                        h.handler = Rec(inner, name, log)
+                    else:
+                        hsrv.handlers[k] = Rec(inner, name, log)
+            auth_on = sec['username'] is not None and acceptable
+            if auth_on and not all(wrapped.values()):
+                ctx.violation('handler-not-wrapped:file', 'section [%s]: not behind supervisor_auth_handler: %s'
+                              % (cfg['section'], sorted(k for k, v in wrapped.items() if not v)), inp)
+            # -- the requests: (label, header lines)
+            headers = [('absent', [])]
+            if auth_on:
+                plain = stored if not stored.startswith('{SHA}') else sec.get('plain')
+                if plain is not None and pw_right(plain, stored):
+                    headers.append(('configured', ['Authorization: Basic ' + b64('%s:%s' % (user, plain))]))
+                    headers.append(('configured-lowercase', ['authorization: basic ' + b64('%s:%s' % (user, plain))]))
+                    headers.append(('wrong-user', ['Authorization: Basic ' + b64('%sx:%s' % (user, plain))]))
+                    headers.append(('password-extension', ['Authorization: Basic ' + b64('%s:%sx' % (user, plain))]))
+                    if plain:
+                        headers.append(('password-prefix', ['Authorization: Basic ' + b64('%s:%s' % (user, plain[:-1]))]))
+                # the credentials the same text would stand for in the inherited process environment alone
+                iu, ist = w_value(sec['username'], look_inh), w_value(sec['password'], look_inh)
+                if iu is not None and ist is not None and (iu, ist) != (user, stored):
+                    ipl = ist if not ist.startswith('{SHA}') else sec.get('inherited_plain')
+                    if ipl is not None:
+                        headers.append(('inherited-environment', ['Authorization: Basic ' + b64('%s:%s' % (iu, ipl))]))
+                    if ist.startswith('{SHA}'):
+                        headers.append(('inherited-environment-stored-string', ['Authorization: Basic ' + b64('%s:%s' % (iu, ist))]))
+                # the text as written (an unexpanded %(ENV_X)s), the stored string of a {SHA} entry
+                headers.append(('written-text', ['Authorization: Basic ' + b64('%s:%s' % (w_text(sec['username']), w_text(sec['password'])))]))
+                headers.append(('stored-string', ['Authorization: Basic ' + b64('%s:%s' % (user, stored))]))
+                headers.append(('empty-password', ['Authorization: Basic ' + b64('%s:' % user)]))
+                for j2, (u2, st2, _) in enumerate(want):
+                    if j2 != j and u2 is not None and st2 is not None:
+                        pl2 = st2 if not st2.startswith('{SHA}') else fc['sections'][j2].get('plain')
+                        if pl2 is not None:
+                            headers.append(('section-%d-credentials' % j2, ['Authorization: Basic ' + b64('%s:%s' % (u2, pl2))]))
+                hcs = [h for h in header_classes(rng, user, plain if plain is not None else 'x', stored, False)
+                       if not any('\n' in l or '\r' in l for l in h[1]) and not h[0].startswith('oversized')]
+                for lab, hd, _ in rng.sample(hcs, 3):
+                    headers.append(('class-' + lab, hd))
+            for label, header in headers:
+                if any('\n' in l or '\r' in l for l in header):
+                    continue
+                ok = auth_on and carries_right_credentials(header, user, stored)
+                must_refuse_401 = label in ('absent', 'wrong-user', 'password-extension', 'password-prefix', 'inherited-environment',
+                                            'inherited-environment-stored-string') or label.startswith('section-')
+                kind_served = ('inherited-environment-credentials-served:file' if label.startswith('inherited-environment') else
+                               'other-sections-credentials-served:file' if label.startswith('section-') else 'other-credentials-served:file')
+                ctx.count('F:class:' + label.split('-')[0] + (':right' if ok else ':not-right'))
+                if real:
+                    for kind in ('rpc', 'css'):
+                        del _Probe.calls[:]
+                        with _Quiet():
+                            conn = Conn(hsrv)
+                            try:
+                                conn.send(real_request(kind, '1.0', header, 0))
+                                conn.pump(8)
+                                t = conn.take_response()
+                                status, head, body = t if t is not None else (None, b'', conn.buf)
+                            finally:
+                                conn.close()
+                        ran = list(_Probe.calls)
+                        rinp = dict(inp, server=cfg['section'], request=[kind, label, header])
+                        what = '%s request (%s) to [%s] of the file' % (kind, label, cfg['section'])
+                        ctx.count('F:real:%s:%s:%s' % (kind, 'right' if ok else 'not-right', status))
+                        if auth_on and not ok:
+                            if ran:
+                                ctx.violation('rpc-method-ran-without-credentials:file', '%s: the RPC method ran (status %s)' % (what, status), rinp)
+                            if css in body:
+                                ctx.violation('handler-bytes-returned-without-credentials:file', '%s: the static file was returned (status %s)' % (what, status), rinp)
+                            if status == 200:
+                                ctx.violation(kind_served, '%s answered 200' % what, rinp)
+                            if must_refuse_401 and (status != 401 or b'WWW-Authenticate: Basic realm=' not in head):
+                                ctx.violation('refusal-without-401:file', '%s answered %s' % (what, status), rinp)
+                        if auth_on and ok and label.startswith('configured'):
+                            served = status == 200 and ((kind == 'rpc' and ran == ['ping']) or (kind == 'css' and css in body))
+                            if not served:
+                                ctx.violation('configured-credentials-refused:file',
+                                              '%s: the credentials the file configures (%r, password %r) answered %s' % (what, user, sec.get('plain', stored), status), rinp)
+                    continue
+                for method, path_ in [('POST', '/RPC2'), rng.choice(SEQ_PATHS[1:6])]:
+                    raw = '\r\n'.join(['%s %s HTTP/1.0' % (method, path_)] + header).encode('utf-8')
+                    status, data = channel_request(hsrv, log, raw)
+                    handled = [e for e in log if e[0] == 'handle']
+                    matched = [e[1] for e in log if e[0] == 'match' and e[2]]
+                    rinp = dict(inp, server=cfg['section'], request=raw.decode('utf-8')[:300], label=label)
+                    what = '%s %s (%s) to [%s] of the file' % (method, path_, label, cfg['section'])
+                    ctx.count('F:status:%s' % status)
+                    if auth_on:
+                        if handled and not ok:
+                            ctx.violation(kind_served, '%s reached handler %s (status %s); the file configures user %r' % (what, handled[0][1], status, user), rinp)
+                        if MARK in data and not ok:
+                            ctx.violation('handler-bytes-returned-without-credentials:file', '%s: the handler\'s body was returned' % what, rinp)
+                        if ok and label.startswith('configured') and matched and not handled:
+                            ctx.violation('configured-credentials-refused:file', '%s: the credentials the file configures (%r, password %r) answered %s'
+                                          % (what, user, sec.get('plain', stored), status), rinp)
+                        if not ok and matched and not handled and status is not None and status not in (400, 401, 500):
+                            ctx.violation('refusal-without-error-status:file', '%s refused with status %s' % (what, status), rinp)
+                        if not ok and must_refuse_401 and matched and not handled and \
+                                (status != 401 or b'WWW-Authenticate: Basic realm=' not in data):
+                            ctx.violation('refusal-without-401:file', '%s answered %s' % (what, status), rinp)
+                    if len(handled) > 1:
+                        ctx.violation('handled-twice', 'two handlers ran for %s: %r' % (what, handled), rinp)
+                    if handled:
+                        line = 'status=- invoked=%s auth=%s' % (handled[0][1], ai_field(handled[0][2]))
+                    else:
+                        if status is None:
+                            continue
+                        line = 'status=%s%s invoked=-' % (status, ' challenge' if b'WWW-Authenticate: Basic realm=' in data else '')
+                    ops.append(op(i, order, ','.join(matched[:1]) or '-', header))
+                    lines.append(line)
+        if not real and acceptable:
+            cases.append(('case auth user=N pass=N', ops))
+            impls.append(lines)
+    finally:
+        for _, hsrv in servers:
+            try:
+                hsrv.close()
+            except Exception:
+                pass
+        asyncore.socket_map.clear()
+
+
+# ---- generator
+FC_PW = ['from-config-file', 'inherited-from-shell', 'secret', 'p:w', 'päss€', 'Sec ret=;#x', 'x', '100%s', 's3,cr3t', 'a b', '{SHA}', '%(ENV_X)s', 'tr4il ']
+FC_USER = ['admin', 'user', 'Admin User', 'üser', 'u', 'root%d', 'inherited-user', 'x y']
+FC_NAMES = ['HTPASS', 'HTUSER', 'SUP_SECRET', 'X', 'c17_lower', 'PW2', 'HASH', 'HOME_C17']
+FC_WHERE = ['os', 'sup', 'both', 'both-same', 'sup-from-os', 'sup-from-os-both']
+
+
+def fc_file_safe(v):
+    """can stand literally in the file (ConfigParser strips values and cuts ' ;' / ' #' comments; environment= values are quoted)"""
+    return v == v.strip() and ' ;' not in v and ' #' not in v and '"' not in v and "'" not in v and '\\' not in v and '\n' not in v
+
+
+def fc_bind(fc, name, where, cfg, inh, split=None):
+    """define NAME so that the file gives it the value `cfg` (`inh` = what the process environment holds, where it differs)"""
+    if where == 'os':
+        fc['vars'][name] = {'os': cfg, 'sup': None}
+    elif where == 'sup':
+        fc['vars'][name] = {'os': None, 'sup': [['l', cfg]]}
+    elif where == 'both':
+        fc['vars'][name] = {'os': inh, 'sup': [['l', cfg]]}
+    elif where == 'both-same':
+        fc['vars'][name] = {'os': cfg, 'sup': [['l', cfg]]}
+    elif where in ('sup-from-os', 'sup-from-os-both'):
+        # environment=NAME="%(ENV_NAME_BASE)s<tail>": the value refers to the process environment
+        k = max(1, len(cfg) // 2) if split is None else split
+        fc['vars'][name + '_BASE'] = {'os': cfg[:k], 'sup': None}
+        fc['vars'][name] = {'os': inh if where.endswith('both') else None,
+                            'sup': [['e', name + '_BASE']] + ([['l', cfg[k:]]] if cfg[k:] else [])}
+    else:
+        fc['vars'][name] = {'os': None, 'sup': None}          # 'nowhere'
+
+
+def fc_slot(rng, fc, pool, where, name, mixed=False, sha=None):
+    """one username / password: -> (written, plain the client sends for the configured value, plain for the inherited value)"""
+    literal_ok = [v for v in pool if fc_file_safe(v)]
+    cfg = rng.choice(pool if where == 'os' else literal_ok)
+    inh = rng.choice([v for v in pool if v != cfg])
+    if where in ('sup-from-os', 'sup-from-os-both') and not fc_file_safe(cfg[max(1, len(cfg) // 2):]):
+        cfg = 'from-config-file'
+    plain, iplain = cfg, inh
+    if sha == 'var':
+        cfg, inh = sha_entry(plain), sha_entry(iplain)
+    elif sha == 'hex':
+        cfg, inh = sha_entry(plain)[5:], sha_entry(iplain)[5:]
+    if where == 'lit':
+        if not fc_file_safe(cfg):
+            cfg = plain = 'secret'
+            if sha:
+                cfg = sha_entry(plain)[5:] if sha == 'hex' else sha_entry(plain)
+        w = [['l', cfg]]
+    else:
+        fc_bind(fc, name, where, cfg, inh)
+        w = [['e', name]]
+    if sha == 'hex':
+        w = [['l', '{SHA}']] + w
+    elif mixed and not sha:
+        pre, post = rng.choice(['', 'pre-', 'P']), rng.choice(['', '-post', '9'])
+        w = ([['l', pre]] if pre else []) + w + ([['l', post]] if post else [])
+        plain, iplain = pre + plain + post, pre + iplain + post
+    return w, plain, iplain
+
+
+def fc_addr(rng, fc, kind, k, how):
+    if kind == 'unix':
+        if how == 'lit':
+            return [['l', '{scratch}/s%d.sock' % k]]
+        if how == 'here':
+            return [['h'], ['l', '/s%d.sock' % k]]
+        fc_bind(fc, 'SOCKDIR%d' % k, how, '{scratch}', '{scratch}/inh', split=9)
+        return [['e', 'SOCKDIR%d' % k], ['l', '/s%d.sock' % k]]
+    if how in ('lit', 'here'):
+        return [['l', '127.0.0.1:{port%d}' % k]]
+    fc_bind(fc, 'PORT%d' % k, how, '{port%d}' % k, '{port3}', split=7)
+    return [['l', '127.0.0.1:'], ['e', 'PORT%d' % k]]
+
+
+def fc_make(rng, kinds, plan):
+    """plan = per section (username where, password where, sha, mixed, address how); where 'open' = no credentials"""
+    fc = {'vars': {}, 'sup_dups': {}, 'sections': []}
+    for k, (kind, (uw, pw, sha, mixed, how)) in enumerate(zip(kinds, plan)):
+        sec = {'kind': kind, 'username': None, 'password': None, 'addr': fc_addr(rng, fc, kind, k, how)}
+        if uw != 'open':
+            sec['username'], _, _ = fc_slot(rng, fc, FC_USER, uw, 'HTUSER%d' % k if k else 'HTUSER', mixed and rng.random() < 0.5)
+            sec['password'], sec['plain'], sec['inherited_plain'] = fc_slot(rng, fc, FC_PW, pw, rng.choice(['HTPASS', 'SUP_SECRET', 'c17_lower']) + ('%d' % k if k else ''),
+                                                                             mixed, sha)
+        fc['sections'].append(sec)
+    fc['sup_order'] = [n for n, v in fc['vars'].items() if v['sup'] is not None]
+    rng.shuffle(fc['sup_order'])
+    return fc
+
+
+def fc_small_scope():
+    """every way a name can be defined x the slot that uses it x the kind of server (x {SHA} for the password)"""
+    import random
+    out = []
+    for kind in ('unix', 'inet'):
+        for where in FC_WHERE:
+            for slot in ('username', 'password', 'password-sha', 'password-sha-hex', 'both-slots', 'address'):
+                rng = random.Random('%s/%s/%s' % (kind, where, slot))
+                uw = where if slot in ('username', 'both-slots') else 'lit'
+                pw = where if slot.startswith('password') or slot == 'both-slots' else 'lit'
+                sha = 'var' if slot == 'password-sha' else 'hex' if slot == 'password-sha-hex' else None
+                how = where if slot == 'address' else 'lit'
+                out.append(fc_make(rng, [kind], [(uw, pw, sha, False, how)]))
+    return out
+
+
+def fc_random(rng):
+    kinds = rng.choice([['unix'], ['inet'], ['unix', 'inet'], ['inet', 'unix'], ['unix', 'unix'], ['inet', 'unix', 'inet']])
+    plan = []
+    for _ in kinds:
+        if rng.random() < 0.1:
+            plan.append(('open', 'open', None, False, rng.choice(['lit', 'here'])))
+            continue
+        wheres = ['lit'] + FC_WHERE + ['both', 'both']
+        uw, pw = rng.choice(wheres), rng.choice(wheres[1:] if rng.random() < 0.8 else wheres)
+        if rng.random() < 0.04:
+            pw = 'nowhere'
+        plan.append((uw, pw, rng.choice([None, None, 'var', 'hex']), rng.random() < 0.3,
+                     rng.choice(['lit', 'lit', 'here', 'os', 'sup', 'both'])))
+    fc = fc_make(rng, kinds, plan)
+    if fc['sup_order'] and rng.random() < 0.15:
+        nm = rng.choice(fc['sup_order'])
+        fc['sup_dups'][nm] = [['l', 'replaced-by-the-later-entry']]
+    return fc
+
+
+def run_file_cases(ctx):
+    import json
+    rng = ctx.rng
+    cases, impls = [], []
+    corpus = json.load(open(os.path.join(os.path.dirname(os.path.abspath(__file__)), '..', '..', 'corpus', 'C17', 'file_cases.json')))
+    for entry in corpus['file_cases']:
+        ctx.count('F:corpus')
+        file_case(ctx, entry['case'], cases, impls, real=False)
+        file_case(ctx, entry['case'], cases, impls, real=True)
+    small = fc_small_scope()
+    for k, fc in enumerate(small):
+        file_case(ctx, fc, cases, impls, real=False)
+        if ctx.tier == 'thorough' or k % 6 == ctx.seed % 6:
+            file_case(ctx, fc, cases, impls, real=True)
+    for k in range(ctx.n(150, 1500)):
+        fc = fc_random(rng)
+        file_case(ctx, fc, cases, impls, real=(k % 5 == 4))
+    if cases:
+        ctx.sample({'case': 'file', 'ops': [o[:300] for o in cases[0][1][1:3]], 'impl': impls[0][1:3]})
+    ctx.correspond('auth-from-config-file', cases, impls)
+
+
 def run_config_parse(ctx):
     """what `username=` (empty) with a password becomes (F18), through the real parser"""
     from supervisor.options import ServerOptions
@@ -1224,12 +1785,17 @@ def run(ctx):
     run_level_b_seq(ctx)
     run_level_c_seq(ctx)
     run_level_b_multi(ctx)
+    run_file_cases(ctx)
     run_config_parse(ctx)
 
 
 def replay(ctx, data):
     inp = data['input']
-    if inp.get('level') == 'A':
+    if inp.get('level') == 'F':
+        cases, impls = [], []
+        file_case(ctx, inp['file_case'], cases, impls, real=bool(inp.get('real')))
+        ctx.correspond('auth-from-config-file', cases, impls)
+    elif inp.get('level') == 'A':
         line, obs = level_a_one(inp['user'], inp['stored'], inp['header'])
         if obs['inner'] and not carries_right_credentials(inp['header'], inp['user'], inp['stored']):
             ctx.violation('served-without-valid-credentials', 'replayed: ' + line, inp)
